@@ -707,3 +707,29 @@ pub fn big_boundary_stream(j: usize) -> Script {
         _ => Script { kinds: vec![k, k], frames: vec![valid_frame(k, 0, total - (small.len() + 1) - 1 - base, 3), small] },
     }
 }
+
+/// Number of streams in the fraction family (see `fraction_stream`).
+pub const N_FRACTION: usize = 2 * 2 * 5 * 3;
+
+/// *Fractions of an earlier buffer size.* A first frame of 1.1 or 4.3 MiB makes the receive buffer
+/// grow to some length L and is consumed; a second long frame is then interrupted (transient
+/// failure, or an abandoned receive) after exactly L/16, L/8, L/4, L/2 or 3L/4 bytes, give or take one -
+/// the offsets at which housekeeping that resizes a buffer "to a quarter", "to half" and the like
+/// has its boundary cases. Returns the script, the stream offset at which the first frame ends
+/// (incl. its terminator) and the number of bytes of the second frame in front of the interruption.
+pub fn fraction_stream(j: usize) -> (Script, usize, usize) {
+    let j = j % N_FRACTION;
+    let s1 = [1_100_000usize, 4_300_037][j % 2];
+    let l_extra = [0usize, 256][(j / 2) % 2];
+    let (num, den) = [(1usize, 16usize), (1, 8), (1, 4), (1, 2), (3, 4)][(j / 4) % 5];
+    let d = (j / 20) % 3; // 0: one less, 1: exact, 2: one more
+    let base = valid_frame(0, 0, 0, 0).len();
+    let f1 = valid_frame(0, 0, s1 - base, 0);
+    // the reader grows its buffer by 256 whenever a read fills it
+    let l = ((f1.len() + 1) / 256 + 1) * 256 + l_extra;
+    let off = l * num / den + d - 1;
+    let f2 = valid_frame(0, 0, off + 3_000 - base, 1);
+    let f3 = valid_frame(0, 3, 0, 2);
+    let f1_end = f1.len() + 1;
+    (Script { kinds: vec![0, 0, 0], frames: vec![f1, f2, f3] }, f1_end, off)
+}
